@@ -28,6 +28,8 @@ type Member struct {
 	Host    string `json:"host"`
 	Require bool   `json:"require_client_cert"`
 	Dead    bool   `json:"dead,omitempty"` // the peer never answers (stdio+tls upstream without a server)
+	// TrustsForeign: this endpoint verifies client certificates against the OTHER CA
+	TrustsForeign bool `json:"trusts_foreign,omitempty"`
 }
 
 type Case struct {
@@ -36,6 +38,10 @@ type Case struct {
 	ClientCert string   `json:"client_cert"` // "" | good | foreign
 	KnowsCA    bool     `json:"knows_ca"`
 	UDP        string   `json:"udp,omitempty"`
+	// Separate: every member is an upstream list of its own (one client process, one client
+	// configuration, several tunnels one after the other): a session with an earlier member must
+	// not make a later one admit the client
+	Separate bool `json:"separate,omitempty"`
 }
 
 func (m Member) String() string {
@@ -43,7 +49,11 @@ func (m Member) String() string {
 	if m.TLS {
 		sec = "tls"
 	}
-	return fmt.Sprintf("%s+%s cert=%s host=%s requireClientCert=%v", m.Carrier, sec, m.Cert, m.Host, m.Require)
+	tf := ""
+	if m.TrustsForeign {
+		tf = " trustsForeignCA"
+	}
+	return fmt.Sprintf("%s+%s cert=%s host=%s requireClientCert=%v%s", m.Carrier, sec, m.Cert, m.Host, m.Require, tf)
 }
 
 func (c Case) String() string {
@@ -57,6 +67,9 @@ func (c Case) String() string {
 	u := ""
 	if c.UDP != "" {
 		u = " udp=" + c.UDP
+	}
+	if c.Separate {
+		u += " separate-tunnels"
 	}
 	return fmt.Sprintf("[%s] insecure=%v clientCert=%q knowsCA=%v%s", s, c.Insecure, c.ClientCert, c.KnowsCA, u)
 }
@@ -81,7 +94,7 @@ func admits(m Member, c Case) bool {
 	if m.Carrier == "stdio" && m.TLS {
 		serverOK = true // stdin+tls: server verification is documented as skipped
 	}
-	clientOK := !m.Require || c.ClientCert == "good"
+	clientOK := !m.Require || (c.ClientCert == "good" && !m.TrustsForeign) || (c.ClientCert == "foreign" && m.TrustsForeign)
 	return serverOK && clientOK
 }
 
@@ -90,7 +103,7 @@ func execute(t *testing.T, c Case) (kind, detail string) {
 		var worlds []*world.World
 		var list []upstream.Upstream
 		for _, m := range c.Members {
-			o := world.Options{Carrier: m.Carrier, TLS: m.TLS, Channels: []string{"x"}, ServerCert: m.Cert, RequireClientCert: m.Require,
+			o := world.Options{Carrier: m.Carrier, TLS: m.TLS, Channels: []string{"x"}, ServerCert: m.Cert, RequireClientCert: m.Require, ServerTrustsForeignCA: m.TrustsForeign,
 				Host: m.Host, Keep: true, Insecure: c.Insecure, ClientKnowsCA: c.KnowsCA, ClientCert: c.ClientCert}
 			w, err := world.New(o)
 			if err != nil {
@@ -101,6 +114,34 @@ func execute(t *testing.T, c Case) (kind, detail string) {
 			list = append(list, w.Front)
 		}
 		host := worlds[0] // its client configuration object is the one shared by all attempts
+		if c.Separate {
+			// one tunnel after the other, each its own upstream list, one client configuration
+			for i := range c.Members {
+				ups := &upstream.Upstreams{Data: []upstream.Upstream{list[i]}}
+				app := host.OpenAppVia(ups, "x", nil)
+				app.StartWrite([]byte("payload-through-authenticated-session"))
+				bubble.Wait()
+				bubble.Advance(90 * time.Second)
+			}
+			for i, w := range worlds {
+				m := c.Members[i]
+				n := w.Chans[0].NumTargets()
+				cls := fmt.Sprintf("%s|cert=%s", secName(m), m.Cert)
+				switch {
+				case admits(m, c) && n != 1:
+					kind, detail = "rejects-legitimate-peer|"+cls+"|"+hostClass(m.Host)+"|separate", fmt.Sprintf("tunnel #%d (%s) must be accepted but no session was established: front error %q", i, m, w.Front.Err)
+					return
+				case !admits(m, c) && n > 0:
+					why := "server"
+					if m.Require {
+						why = "client-cert"
+					}
+					kind, detail = "admits-unauthenticated-peer|"+cls+"|"+why+"|after-a-session-elsewhere", fmt.Sprintf("tunnel #%d (%s) must NOT be accepted (insecure=%v knowsCA=%v clientCert=%q) but a session was established after the client had a session with tunnel #%d", i, m, c.Insecure, c.KnowsCA, c.ClientCert, i-1)
+					return
+				}
+			}
+			return
+		}
 		ups := &upstream.Upstreams{Data: list}
 		app := host.OpenAppVia(ups, "x", nil)
 		app.StartWrite([]byte("payload-through-authenticated-session"))
@@ -227,6 +268,30 @@ func cases(thorough bool) []Case {
 			}
 		}
 	}
+	// one tunnel after the other with one client configuration: a session with a well-configured
+	// endpoint first, then an endpoint that must refuse this client (another CA for client
+	// certificates, an untrusted / expired / foreign-host server certificate)
+	goodFirst := []Member{
+		{Carrier: "stream", TLS: false, Cert: "good", Host: "server.test", Require: true},
+		{Carrier: "stream", TLS: true, Cert: "good", Host: "server.test", Require: true},
+		{Carrier: "ws", TLS: false, Cert: "good", Host: "server.test", Require: true},
+	}
+	refusing := []Member{
+		{Carrier: "stream", TLS: false, Cert: "good", Host: "server.test", Require: true, TrustsForeign: true},
+		{Carrier: "stream", TLS: true, Cert: "good", Host: "server.test", Require: true, TrustsForeign: true},
+		{Carrier: "ws", TLS: false, Cert: "good", Host: "server.test", Require: true, TrustsForeign: true},
+		{Carrier: "dns", TLS: false, Cert: "good", Host: "server.test", Require: true, TrustsForeign: true},
+		{Carrier: "stream", TLS: false, Cert: "untrusted", Host: "server.test"},
+		{Carrier: "stream", TLS: false, Cert: "expired", Host: "server.test"},
+		{Carrier: "stream", TLS: true, Cert: "wronghost", Host: "server.test"},
+	}
+	for _, a := range goodFirst {
+		for _, b := range refusing {
+			out = append(out, Case{Members: []Member{a, b}, ClientCert: "good", KnowsCA: true, Separate: true})
+		}
+	}
+	// (and the mirror: a client holding the foreign CA's certificate is admitted by the endpoint that trusts it)
+	out = append(out, Case{Members: []Member{{Carrier: "stream", TLS: false, Cert: "good", Host: "server.test", Require: true, TrustsForeign: true}}, ClientCert: "foreign", KnowsCA: true})
 	return out
 }
 
